@@ -394,6 +394,10 @@ func (w *walReader) ReadBytes() ([]byte, error) {
 	payload := make([]byte, payloadLen)
 	_, err = io.ReadAtLeast(w.reader, payload, int(payloadLen))
 	if err != nil {
+		if err == io.EOF {
+			// header without any payload byte is a torn record, not a clean end
+			err = io.ErrUnexpectedEOF
+		}
 		return nil, errors.WithStack(err)
 	}
 
